@@ -41,8 +41,9 @@ Qed.
 Theorem agrees_implies_prop_ok_lemma : forall c,
   agrees1 (serve_call (call_of c)) c = true -> prop_ok1 c = true.
 Proof.
-  intros c Hag. unfold agrees1 in Hag. apply andb_true_iff in Hag. destruct Hag as [_ Hag]. revert Hag.
-  unfold prop_ok1. destruct (in_scope c); [|discriminate].
+  intros c Hag. unfold agrees1 in Hag. apply andb_true_iff in Hag. destruct Hag as [Hpre Hag].
+  apply andb_true_iff in Hpre. destruct Hpre as [_ Hint]. revert Hag.
+  unfold prop_ok1. destruct (in_scope c); [|discriminate]. rewrite Hint. simpl.
   destruct (serve_call (call_of c)) as [vs|byv|] eqn:E; destruct (oc_verdict c); try discriminate.
   - (* accepted *)
     intro H. apply andb_true_iff in H. destruct H as [Hv Hc].
@@ -75,7 +76,7 @@ Lemma agreed_forms1 : forall m c f d,
   agrees1 m c = true -> In (f, d) (oc_forms c) -> form_values gen_max_form_values f = d.
 Proof.
   intros m c f d Hag Hin. unfold agrees1 in Hag. apply andb_true_iff in Hag. destruct Hag as [Hag _].
-  apply andb_true_iff in Hag. destruct Hag as [_ Hf]. unfold forms_ok in Hf.
+  apply andb_true_iff in Hag. destruct Hag as [Hag _]. apply andb_true_iff in Hag. destruct Hag as [_ Hf]. unfold forms_ok in Hf.
   rewrite forallb_forall in Hf. specialize (Hf (f, d) Hin). simpl in Hf. apply optjv_eqb_eq. exact Hf.
 Qed.
 
